@@ -16,6 +16,7 @@ func (v *Vue) evalAttributes(ctx VueContext, n *html.Node) (map[string]any, erro
 	}
 
 	results := map[string]any{}
+	var boundOrder []string // bound attribute names in source order
 
 	var newAttrs []html.Attribute
 
@@ -46,6 +47,9 @@ func (v *Vue) evalAttributes(ctx VueContext, n *html.Node) (map[string]any, erro
 			if !helpers.IsTruthy(boundValue) {
 				continue
 			}
+			if _, seen := results[boundName]; !seen {
+				boundOrder = append(boundOrder, boundName)
+			}
 			results[boundName] = boundValue
 		default:
 			var err error
@@ -68,7 +72,8 @@ func (v *Vue) evalAttributes(ctx VueContext, n *html.Node) (map[string]any, erro
 	}
 
 	// Second pass: merge bound attributes with static ones
-	for attrName, boundValue := range results {
+	for _, attrName := range boundOrder {
+		boundValue := results[attrName]
 		// Check if there's a static attribute with the same name
 		staticIdx := -1
 		for i, a := range newAttrs {
@@ -377,22 +382,43 @@ func parseValue(s string) interface{} {
 }
 
 // mergeStyles merges static and bound CSS styles, with bound values taking precedence.
+// Declarations keep their source order: static ones first, then new bound ones.
 func (v *Vue) mergeStyles(staticStyle, boundStyle string) string {
-	// Parse both styles into maps
-	staticMap := parseStyleMap(staticStyle)
-	boundMap := parseStyleMap(boundStyle)
-
-	// Merge: bound values override static ones
-	for k, v := range boundMap {
-		staticMap[k] = v
+	keys, vals := parseStyleList(staticStyle)
+	bkeys, bvals := parseStyleList(boundStyle)
+	for _, k := range bkeys {
+		if _, ok := vals[k]; !ok {
+			keys = append(keys, k)
+		}
+		vals[k] = bvals[k]
 	}
 
-	// Rebuild style string
 	var styles []string
-	for k, v := range staticMap {
-		styles = append(styles, k+":"+v+";")
+	for _, k := range keys {
+		styles = append(styles, k+":"+vals[k]+";")
 	}
 	return strings.Join(styles, "")
+}
+
+// parseStyleList parses a CSS style string into an ordered key list and a value map.
+func parseStyleList(style string) ([]string, map[string]string) {
+	vals := make(map[string]string)
+	var keys []string
+	for _, part := range strings.Split(style, ";") {
+		part = strings.TrimSpace(part)
+		if part == "" {
+			continue
+		}
+		kv := strings.SplitN(part, ":", 2)
+		if len(kv) == 2 {
+			key := strings.TrimSpace(kv[0])
+			if _, ok := vals[key]; !ok {
+				keys = append(keys, key)
+			}
+			vals[key] = strings.TrimSpace(kv[1])
+		}
+	}
+	return keys, vals
 }
 
 // parseStyleMap parses a CSS style string into a map of properties to values.
